@@ -99,7 +99,7 @@ func c19Run(o normOpts, autoBool bool, initTree map[string]interface{}, args []s
 }
 
 var c19Keys = []string{"a", "b", "a.b", "a.c", "l", "l.0", "l.1", "x.y.z", "a.l", "0", "k"}
-var c19Vals = []string{"1", "-2", "0x10", "1.5", "true", "off", "str", "two words", `"q s"`, `'sq'`, "[1,2]", "[a,[b]]", "[]", "{k:v}", "{k:[1],m:{n:2}}", "a,b", "1,2,3", "null", "", "[3]", "[x,y,z]", "{b:1}", "{l:[9]}", "${a}", "$$x", " 7 "}
+var c19Vals = []string{"1", "-2", "0x10", "1.5", "true", "off", "str", "two words", `"q s"`, `'sq'`, "[1,2]", "[a,[b]]", "[]", "{k:v}", "{k:[1],m:{n:2}}", "a,b", "1,2,3", "null", "", "[3]", "[x,y,z]", "{b:1}", "{l:[9]}", "${a}", "$$x", " 7 ", " ", "  ", "\t", " null "}
 var c19Bad = []string{"[1", "{a", `"x`, "{a:1", "[1 2]", "'y", "{:}", "[1,"}
 
 func c19FromDesc(m map[string]interface{}) (Case, bool) {
